@@ -171,6 +171,10 @@ class Check:
             'floors': [{'what': w, 'analysed': a, 'minimum': m} for (w, a, m) in self.floors],
             'known_findings_listed_but_not_observed': stale,
         }
+        rf = getattr(self.an, 'roles_found', None)
+        if rf:
+            # which private field plays which role on this tree (engine/roles.py): 'canonical <- actual'
+            cov['analysed']['state_roles'] = sorted('%s <- %s' % ('.'.join(c), '.'.join(a)) for k in ('ctx', 'Req', 'Resp') for a, c in rf.get(k, []))
         cov.update(self.extra)
         ev = {
             'property_id': self.pid,
@@ -315,7 +319,11 @@ def simp(know, t):
             try:
                 lo_, hi_ = know.leaf_range(leaf)
                 if lo_ >= 0 and hi_ < (1 << k):
-                    return simp(know, mk_lin(t[1], 0, {leaf: 1}))     # the low k bits of a value that fits in k bits
+                    r_ = mk_lin(t[1], 0, {leaf: 1})     # the low k bits of a value that fits in k bits
+                    if r_ != t:
+                        if lo_ == hi_:
+                            return K(t[1], lo_)
+                        return r_ if r_[0] != 'bv' else mk_bv(t[1], simp_bits(know, r_[2]))
             except Exception:
                 pass
         return mk_bv(t[1], simp_bits(know, t[2]))
